@@ -4,15 +4,21 @@ C20 — A value behaves the same wherever it came from.
 In the model a value read from a slice element, a map entry, a struct field or returned by a Go
 function declared to return interface{} is an `RV` with `ity = true` (reflect kind Interface).
 The theorems state that every operation the interpreter performs on operands depends on them
-only through the dynamic value `RV.v`: the flag - the provenance - is invisible.
+only through the dynamic value `RV.v`: the flag - the provenance - is invisible.  The last section
+lifts this to the WHOLE evaluator: the model is parametrised by the provenance policy (`Prov.wrap`:
+which flag containers and interface-returning Go functions hand out); the real interpreter
+(`wrap = true`) and the flag-free reading (`wrap = false`, no value is ever interface-typed) produce,
+for every program at every fuel and every cancellation point, the same trace, error status, result
+value and bindings (Anko.Proofs.EvalProv*: a simulation through all 28 functions of the evaluator).
 -/
 import Anko.Model.Eval
+import Anko.Proofs.EvalProvAll
 
 set_option linter.unusedSectionVars false
 
 namespace Anko.C20
 open Anko
-variable [FOps]
+variable [FOps] [Prov]
 
 /-- same dynamic value, whatever the provenance flags -/
 def sameValue (a b : RV) : Prop := a.v = b.v
@@ -74,5 +80,46 @@ theorem callee_provenance_invariant (s : St) (f f' : RV) (h : sameValue f f') : 
   rw [h]
 
 example : sameValue ⟨true, .int 3⟩ ⟨false, .int 3⟩ := rfl
+
+/-! ### the whole evaluator -/
+
+/-- the real interpreter / the flag-free reading -/
+def realPolicy : Prov := ⟨true⟩
+def flagFree : Prov := ⟨false⟩
+
+/-- Any two provenance policies, any program, any fuel, any pair of start states equal up to flags:
+the runs end in states equal up to flags.  (`Sim`: scopes with every binding, closures, trace, poll
+counter, cancellation point, unsupported marker, current scope, error status, result value and
+pending defers agree once every interface flag is cleared.) -/
+theorem whole_program_provenance_invariant (P Q : Prov) (fuel : Nat) (p : Stmt) (s t : St) (h : Sim s t) :
+    Sim (@runProgram _ P fuel p s) (@runProgram _ Q fuel p t) := prov_runProgram P Q fuel p h
+
+/-- ... in particular the interpreter is indistinguishable from one in which no value is ever
+interface-typed: same probe trace (every call of a host function with its arguments), same error
+status, same result value, same number of context polls - for every program. -/
+theorem interface_flag_is_unobservable (fuel : Nat) (p : Stmt) (cancelAt : Option Nat) :
+    (@runProgram _ realPolicy fuel p (St.init cancelAt)).trace = (@runProgram _ flagFree fuel p (St.init cancelAt)).trace ∧
+    (@runProgram _ realPolicy fuel p (St.init cancelAt)).err = (@runProgram _ flagFree fuel p (St.init cancelAt)).err ∧
+    (@runProgram _ realPolicy fuel p (St.init cancelAt)).rv.v = (@runProgram _ flagFree fuel p (St.init cancelAt)).rv.v ∧
+    (@runProgram _ realPolicy fuel p (St.init cancelAt)).polls = (@runProgram _ flagFree fuel p (St.init cancelAt)).polls ∧
+    (@runProgram _ realPolicy fuel p (St.init cancelAt)).unsup = (@runProgram _ flagFree fuel p (St.init cancelAt)).unsup := by
+  have h := whole_program_provenance_invariant realPolicy flagFree fuel p _ _ (Sim.refl (St.init cancelAt))
+  exact ⟨h.trace, h.err, h.rv, h.polls, h.unsup⟩
+
+/-- ... and every variable of every scope holds the same dynamic value at the end -/
+theorem final_bindings_provenance_invariant (fuel : Nat) (p : Stmt) (cancelAt : Option Nat) (scope : Nat) (name : String) :
+    ((@runProgram _ realPolicy fuel p (St.init cancelAt)).getValue scope name).map (·.v) =
+    ((@runProgram _ flagFree fuel p (St.init cancelAt)).getValue scope name).map (·.v) := by
+  have h := whole_program_provenance_invariant realPolicy flagFree fuel p _ _ (Sim.refl (St.init cancelAt))
+  have := congrArg (Option.map RV.v) (sim_getValue h scope name)
+  simpa [Function.comp_def] using this
+
+/-- every function of the evaluator, at every fuel (the induction behind the statements above) -/
+theorem every_evaluator_function_provenance_invariant (P Q : Prov) (n : Nat) : ProvIH P Q n := prov_all P Q n
+
+/-- non-vacuity: the two policies do differ on intermediate values (an element read is flagged
+under one and plain under the other), yet agree up to the flag -/
+example : (@elemRV realPolicy (.int 3)).ity = true ∧ (@elemRV flagFree (.int 3)).ity = false ∧
+    (@elemRV realPolicy (.int 3)).v = (@elemRV flagFree (.int 3)).v := ⟨rfl, rfl, rfl⟩
 
 end Anko.C20
